@@ -51,6 +51,7 @@ package zuc
 
 //@ func Zuc(k, iv, wlength) (r)
 //@   requires len(k) >= 16 && len(iv) >= 16 && wlength < 0x10000000
+//@   assigns nothing
 //@   specfuel 999
 //@   opaque ZucRunZ, ZucInit, ZucInitS, ZucInitR
 //@   ensures len(r) == int(wlength)
